@@ -29,7 +29,9 @@ def take_and_reset(ck, C, dl):
     b = dl.body
     # ---- clause 1: take-and-reset on every exit ----------------------------------------------
     resets = [cs for cs in T.calls(b, name=("replace", "set", "take"), path="std::cell::Cell") if is_pending_cell(b, cs.args[0])]
-    resets_in_loop = [cs for cs in resets if cs.bb in dl.blocks]
+    # (blocks that only lead to an error return are not part of the natural loop: a reset on the error arm counts too)
+    after_pe = b.reachable([dl.pe.to], removed_blocks=[dl.header]) if dl.pe.to is not None else set()
+    resets_in_loop = [cs for cs in resets if cs.bb in dl.blocks or cs.bb in after_pe]
     if not resets_in_loop:
         ck.anchor_missing(C, "T2-all-exits", "reset of the deferred-action cell in the batch loop")
         raise AnchorMissing("reset")
@@ -134,6 +136,17 @@ def run(ck):
     ret_local = b.expr(b.blocks[sw]["term"]["on"], at=sw)[2]["l"]
     # the switched-on value may be a copy of the variable the merge writes (argument of an inlined helper)
     ret_locals = T.copy_chain_locals(b, b.expr(b.blocks[sw]["term"]["on"], at=sw)[2]) | {ret_local}
+    # .. on any of its definitions (the return value of an inlined helper has one definition per `return`)
+    grew = True
+    while grew:
+        grew = False
+        for l_ in list(ret_locals):
+            for d_ in b.defs().get(l_, []):
+                if d_[0] == "assign" and d_[3]["rv"]["r"] == "use":
+                    pl_ = op_place(d_[3]["rv"]["o"])
+                    if pl_ is not None and not pl_["p"] and pl_["l"] not in ret_locals and f.adt_path(b.local_ty(pl_["l"])) == PA and len(b.defs().get(pl_["l"], [])) >= 2:
+                        ret_locals.add(pl_["l"])
+                        grew = True
     merged = [m for m in merges if m[2]["pl"]["l"] in ret_locals]
     if merged:
         ret_local = merged[0][2]["pl"]["l"]
@@ -144,7 +157,8 @@ def run(ck):
     for i, j, st in merges:
         guards = [g for g in T.switches_on_discr_of(b, lambda pl: pl["l"] == ret_local and not pl["p"]) if g != sw and g in dl.blocks]
         # .. or the test is made on the payload of process_events' own result (`match result { Ok(Continue) => pending, .. }`)
-        guards += [g for g in T.switches_on_discr_of(b, lambda pl: bool(pl["p"]) and f.adt_path(pl["t"]) == PA and all(r == ("call", dl.pe.bb) for r, p_ in b.resolve(pl))) if g != sw and g in dl.blocks and g not in guards]
+        # (a projection of the result, or a local it was moved into - the parameter of an inlined helper)
+        guards += [g for g in T.switches_on_discr_of(b, lambda pl: f.adt_path(pl["t"]) == PA and bool(b.resolve(pl)) and all(r == ("call", dl.pe.bb) for r, p_ in b.resolve(pl))) if g != sw and g in dl.blocks and g not in guards]
         eq_guards = []
         for cs in T.calls(b, name=("eq", "ne"), trait="PartialEq"):
             if cs.bb in dl.blocks and any(T.refers_to_local(b, a, ret_local) for a in cs.args):
